@@ -745,6 +745,10 @@ func (concEngine) Exec(spec *Spec) *Result {
 	res.SimNanos = sim.Stats.SimNanos
 	res.count("lock_order_inversions", x.inv)
 	res.count("switches", int64(sim.Stats.Switches))
+	if sim.Stats.ChanOps > 0 {
+		res.count("chan_ops", int64(sim.Stats.ChanOps))
+		res.count("chan_blocks", int64(sim.Stats.ChanBlock))
+	}
 	if x.viol != nil {
 		res.Viol = x.viol
 		return res
